@@ -371,16 +371,16 @@ Definition topped (st1 : stream) (amt lot' dzt' : Z) : stream :=
 (* the common tail of AddDeposit: take the coins, extend/restart the zero time, store *)
 Lemma topup_finish now b1 s1 r sn st1 lot' base ext amt b2 s2 :
   str_inv now b1 s1 -> aget (r, sn) (s_streams s1) = Some st1 ->
-  sn <> STREAM_MACC -> 0 < amt ->
+  0 < amt ->
   calculate_duration amt (st_rate st1) = Ok ext ->
   ((lot' = now /\ base = now /\ st_deposit st1 = 0) \/
    (lot' = st_lot st1 /\ base = st_dzt st1 /\ now < st_dzt st1)) ->
   bank_send b1 sn STREAM_MACC (st_denom st1) amt = Ok b2 ->
   set_stream s1 r sn (topped st1 amt lot' (add_seconds base ext)) = Ok s2 ->
-  str_inv now b2 s2 /\ add_seconds base ext = base + (amt / st_rate st1) * NS /\
+  (sn <> STREAM_MACC -> str_inv now b2 s2) /\ add_seconds base ext = base + (amt / st_rate st1) * NS /\
   s2 = with_streams s1 (aset (r, sn) (topped st1 amt lot' (base + (amt / st_rate st1) * NS)) (s_streams s1)).
 Proof.
-  intros I Hg Nsn Hamt Hdur Hcase Hsend Hset.
+  intros I Hg Hamt Hdur Hcase Hsend Hset.
   pose proof (si_streams _ _ _ I _ _ Hg) as Hok.
   destruct Hok as [Hr Hd Hl Hls Hds Hsus].
   destruct (si_now _ _ _ I) as [Hns Hn0].
@@ -392,7 +392,7 @@ Proof.
   apply andb_true_iff in Est as [Hlot' Hdz].
   pose proof (add_seconds_wrap_not_storable _ _ Hbs Hext Hdz) as Hadd.
   injection Hset as <-. rewrite Hadd in *.
-  split; [|split; [reflexivity|reflexivity]].
+  split; [intros Nsn|split; [reflexivity|reflexivity]].
   apply bank_send_inv in Hsend as (_ & _ & M).
   apply inv_set with (b := b1); auto.
   - constructor; cbn [topped st_rate st_deposit st_lot st_dzt]; auto; try lia.
@@ -406,9 +406,9 @@ Proof.
 Qed.
 
 Lemma add_deposit_spec now b s r sn d amt b2 s2 st :
-  str_inv now b s -> aget (r, sn) (s_streams s) = Some st -> 0 < amt -> sn <> STREAM_MACC ->
+  str_inv now b s -> aget (r, sn) (s_streams s) = Some st -> 0 < amt ->
   add_deposit now b s r sn d amt = Ok (b2, s2) ->
-  str_inv now b2 s2 /\ d = st_denom st /\ amt / st_rate st < two63 /\
+  (sn <> STREAM_MACC -> str_inv now b2 s2) /\ d = st_denom st /\ amt / st_rate st < two63 /\
   exists b1 s1 st1 lot' dzt',
     bank_send b1 sn STREAM_MACC d amt = Ok b2 /\
     s2 = with_streams s1 (aset (r, sn) (topped st1 amt lot' dzt') (s_streams s1)) /\
@@ -423,7 +423,7 @@ Lemma add_deposit_spec now b s r sn d amt b2 s2 st :
                                        /\ cr_total c = st_deposit st /\ cr_remaining c = 0)
        \/ (st_deposit st = 0 /\ b1 = b /\ s1 = s)))).
 Proof.
-  intros I Hg Hamt Nsn H.
+  intros I Hg Hamt H.
   pose proof (si_streams _ _ _ I _ _ Hg) as Hok.
   unfold add_deposit in H. rewrite Hg in H.
   destruct (d =? st_denom st) eqn:Ed; cbn [negb] in H; [|discriminate].
@@ -442,7 +442,7 @@ Proof.
       rewrite Hg1 in H. cbn [obind claimed st_denom st_deposit st_rate st_cancellable st_dzt] in H.
       destruct (bank_send b1 sn STREAM_MACC (st_denom st) amt) as [b2'|?|?] eqn:Hsend; cbn [obind] in H; try discriminate.
       dobind_as H s0 Hset. injection H as <- <-.
-      destruct (topup_finish now b1 s1 r sn (claimed now st 0) now now ext amt b2' s0 I1 Hg1 Nsn Hamt Hdur
+      destruct (topup_finish now b1 s1 r sn (claimed now st 0) now now ext amt b2' s0 I1 Hg1 Hamt Hdur
                   ltac:(left; auto) Hsend Hset) as (I2 & Hadd & Hs2).
       split; [exact I2|]. split; [reflexivity|]. split; [exact Hq|].
       exists b1, s1, (claimed now st 0), now, (now + amt / st_rate st * NS).
@@ -454,24 +454,902 @@ Proof.
       destruct (bank_send b sn STREAM_MACC (st_denom st) amt) as [b2'|?|?] eqn:Hsend; cbn [obind] in H; try discriminate.
       dobind_as H s0 Hset. injection H as <- <-.
       assert (Hz : st_deposit st = 0) by (pose proof (so_deposit _ _ Hok); lia).
-      pose proof (topup_finish now b s r sn st now now ext amt b2' s0 I Hg Nsn Hamt Hdur
+      pose proof (topup_finish now b s r sn st now now ext amt b2' s0 I Hg Hamt Hdur
                   ltac:(left; auto) Hsend) as HF.
       unfold topped in HF. cbn [st_denom st_deposit st_rate st_cancellable] in HF.
       destruct (HF Hset) as (I2 & Hadd & Hs2).
       split; [exact I2|]. split; [reflexivity|]. split; [exact Hq|].
       exists b, s, st, now, (now + amt / st_rate st * NS).
       repeat (split; [first [assumption | reflexivity]|]).
-      split; [intros; reflexivity|].
       right. repeat (split; [first [reflexivity | lia]|]).
       right. auto.
   - cbn [obind] in H.
     destruct (bank_send b sn STREAM_MACC (st_denom st) amt) as [b2'|?|?] eqn:Hsend; cbn [obind] in H; try discriminate.
     dobind_as H s0 Hset. injection H as <- <-.
-    destruct (topup_finish now b s r sn st (st_lot st) (st_dzt st) ext amt b2' s0 I Hg Nsn Hamt Hdur
+    destruct (topup_finish now b s r sn st (st_lot st) (st_dzt st) ext amt b2' s0 I Hg Hamt Hdur
                 ltac:(right; repeat split; lia) Hsend Hset) as (I2 & Hadd & Hs2).
     split; [exact I2|]. split; [reflexivity|]. split; [exact Hq|].
     exists b, s, st, (st_lot st), (st_dzt st + amt / st_rate st * NS).
     repeat (split; [first [assumption | reflexivity]|]).
-    split; [intros; reflexivity|].
     left. repeat (split; [first [reflexivity | lia]|]). reflexivity.
+Qed.
+
+(* ================================================================== *)
+(* SetNewFlowRate                                                      *)
+(* ================================================================== *)
+
+Definition rerated (st1 : stream) (rate dzt' : Z) : stream :=
+  {| st_denom := st_denom st1; st_deposit := st_deposit st1; st_rate := rate;
+     st_lot := st_lot st1; st_dzt := dzt'; st_cancellable := st_cancellable st1 |}.
+
+Lemma set_new_flow_rate_spec now b s r sn rate b2 s2 st :
+  str_inv now b s -> aget (r, sn) (s_streams s) = Some st -> 1 <= rate ->
+  set_new_flow_rate now b s r sn rate = Ok (b2, s2) ->
+  (rate < two63 -> str_inv now b2 s2) /\
+  exists s1 st1 dzt',
+    s2 = with_streams s1 (aset (r, sn) (rerated st1 rate dzt') (s_streams s1)) /\
+    s_valfee s1 = s_valfee s /\
+    (forall k, k <> (r, sn) -> aget k (s_streams s1) = aget k (s_streams s)) /\
+    ((0 < st_deposit st /\
+      exists c, claim_from_stream now b s r sn = Ok (b2, s1, c) /\
+                st1 = claimed now st (cr_remaining c) /\
+                dzt' = now + (cr_remaining c / rate) * NS)
+     \/ (st_deposit st = 0 /\ b2 = b /\ s1 = s /\ st1 = st /\ dzt' = now)).
+Proof.
+  intros I Hg Hrate H.
+  pose proof (si_streams _ _ _ I _ _ Hg) as Hok.
+  destruct (si_now _ _ _ I) as [Hns Hn0].
+  unfold set_new_flow_rate in H. rewrite Hg in H.
+  destruct (0 <? st_deposit st) eqn:Edep.
+  - destruct (claim_from_stream now b s r sn) as [[[b1 s1] c]|?|?] eqn:Ecl; cbn [obind] in H; try discriminate.
+    destruct (claim_spec _ _ _ _ _ _ _ _ _ I Hg Ecl) as (I1 & _ & _ & _ & Htot & Hrem & _ & _ & _ & _ & Hs1 & _).
+    assert (Hg1 : aget (r, sn) (s_streams s1) = Some (claimed now st (cr_remaining c))).
+    { rewrite Hs1. cbn [with_streams s_streams]. apply aget_aset_eq. }
+    rewrite Hg1 in H. cbn [claimed st_deposit] in H.
+    destruct (calculate_duration (cr_remaining c) rate) as [dur|?|?] eqn:Hdur; cbn [obind] in H; try discriminate.
+    fold (claimed now st (cr_remaining c)) in H.
+    change (obind (set_stream s1 r sn (rerated (claimed now st (cr_remaining c)) rate (add_seconds now dur)))
+                  (fun s2 => Ok (b1, s2)) = Ok (b2, s2)) in H.
+    dobind_as H s0 Hset. injection H as <- <-.
+    pose proof (duration_range _ _ _ Hdur) as Hext.
+    apply duration_exact in Hdur; [|lia|lia]. subst dur.
+    unfold set_stream in Hset. cbn [rerated claimed st_lot st_dzt] in Hset.
+    destruct (time_storable now && time_storable (add_seconds now (cr_remaining c / rate))) eqn:Est; [|discriminate].
+    apply andb_true_iff in Est as [_ Hdz].
+    pose proof (add_seconds_wrap_not_storable _ _ Hns Hext Hdz) as Hadd.
+    injection Hset as <-. rewrite Hadd in *.
+    destruct (claim_frame _ _ _ _ _ _ _ _ Ecl) as [Hvf Hfr].
+    split.
+    + intros Hr63. apply inv_set with (b := b1); auto.
+      * constructor; cbn [rerated claimed st_rate st_deposit st_lot st_dzt]; auto; try lia.
+        left. apply restart_sustain; lia.
+      * eapply si_receivers; eauto.
+      * intros d. rewrite Hg1. cbn [dep_opt]. unfold dep_in; cbn [rerated claimed st_denom st_deposit]. lia.
+    + exists s1, (claimed now st (cr_remaining c)), (now + cr_remaining c / rate * NS).
+      repeat (split; [first [assumption | reflexivity]|]).
+      left. split; [lia|]. exists c. auto.
+  - cbn [obind] in H.
+    change (obind (set_stream s r sn (rerated st rate now)) (fun s2 => Ok (b, s2)) = Ok (b2, s2)) in H.
+    dobind_as H s0 Hset. injection H as <- <-.
+    unfold set_stream in Hset. cbn [rerated st_lot st_dzt] in Hset.
+    destruct (time_storable (st_lot st) && time_storable now) eqn:Est; [|discriminate].
+    injection Hset as <-.
+    assert (Hz : st_deposit st = 0) by (pose proof (so_deposit _ _ Hok); lia).
+    split.
+    + intros Hr63. destruct Hok as [Hr Hd Hl Hls Hds Hsus].
+      apply inv_set with (b := b); auto.
+      * constructor; cbn [rerated st_rate st_deposit st_lot st_dzt]; auto; try lia.
+      * eapply si_receivers; eauto.
+      * intros d. rewrite Hg. cbn [dep_opt]. unfold dep_in; cbn [rerated st_denom st_deposit]. lia.
+    + exists s, st, now.
+      repeat (split; [first [assumption | reflexivity]|]).
+      right. auto.
+Qed.
+
+(* ================================================================== *)
+(* CancelStreamBySenderReceiver                                        *)
+(* ================================================================== *)
+
+Lemma cancel_finish now b1 s1 r sn st1 b2 :
+  str_inv now b1 s1 -> aget (r, sn) (s_streams s1) = Some st1 ->
+  (if 0 <? st_deposit st1
+   then bank_send_m2a b1 STREAM_MACC sn (st_denom st1) (st_deposit st1) else Ok b1) = Ok b2 ->
+  str_inv now b2 (with_streams s1 (adel (r, sn) (s_streams s1))) /\
+  moved b1 b2 STREAM_MACC sn (st_denom st1) (st_deposit st1) /\
+  (0 < st_deposit st1 -> blocked sn = false).
+Proof.
+  intros I Hg H.
+  pose proof (so_deposit _ _ (si_streams _ _ _ I _ _ Hg)) as Hd.
+  destruct (0 <? st_deposit st1) eqn:E.
+  - apply bank_send_m2a_inv in H as (Hb & _ & _ & M).
+    split; [|auto].
+    apply inv_del with (b := b1); auto.
+    intros d. rewrite Hg. cbn [dep_opt]. unfold dep_in.
+    rewrite (moved_sender _ _ _ _ _ _ d M).
+    + destruct (st_denom st1 =? d) eqn:E1; destruct (d =? st_denom st1) eqn:E2; lia.
+    + intros X. rewrite <- X in Hb. discriminate Hb.
+  - injection H as <-. assert (Hz : st_deposit st1 = 0) by lia.
+    split; [|split; [rewrite Hz; apply moved_zero | lia]].
+    apply inv_del with (b := b1); auto.
+    intros d. rewrite Hg. cbn [dep_opt]. unfold dep_in. destruct (_ =? _); lia.
+Qed.
+
+Lemma cancel_spec now b s r sn b2 s2 st :
+  str_inv now b s -> aget (r, sn) (s_streams s) = Some st ->
+  cancel_stream now b s r sn = Ok (b2, s2) ->
+  str_inv now b2 s2 /\ st_cancellable st = true /\
+  exists b1 s1 R,
+    s2 = with_streams s1 (adel (r, sn) (s_streams s1)) /\
+    s_valfee s1 = s_valfee s /\
+    (forall k, k <> (r, sn) -> aget k (s_streams s1) = aget k (s_streams s)) /\
+    NoDup (akeys (s_streams s1)) /\
+    R = snd (calculate_amount_to_claim now (st_dzt st) (st_lot st) (st_deposit st) (st_rate st)) /\
+    0 <= R /\
+    moved b1 b2 STREAM_MACC sn (st_denom st) R /\ (0 < R -> blocked sn = false) /\
+    ((0 < st_deposit st /\ exists c, claim_from_stream now b s r sn = Ok (b1, s1, c) /\ cr_remaining c = R)
+     \/ (st_deposit st = 0 /\ b1 = b /\ s1 = s)).
+Proof.
+  intros I Hg H.
+  pose proof (si_streams _ _ _ I _ _ Hg) as Hok.
+  unfold cancel_stream in H. rewrite Hg in H.
+  destruct (st_cancellable st) eqn:Ecan; cbn [negb] in H; [|discriminate].
+  destruct (0 <? st_deposit st) eqn:Edep.
+  - destruct (claim_from_stream now b s r sn) as [[[b1 s1] c]|?|?] eqn:Ecl; cbn [obind] in H; try discriminate.
+    destruct (claim_spec _ _ _ _ _ _ _ _ _ I Hg Ecl) as (I1 & _ & _ & Hrem & Htot & Hrem' & _ & _ & _ & _ & Hs1 & _).
+    assert (Hg1 : aget (r, sn) (s_streams s1) = Some (claimed now st (cr_remaining c))).
+    { rewrite Hs1. cbn [with_streams s_streams]. apply aget_aset_eq. }
+    rewrite Hg1 in H.
+    dobind_as H b2' Hsend. injection H as <- <-.
+    destruct (cancel_finish _ _ _ _ _ _ _ I1 Hg1 Hsend) as (I2 & M & Hbl).
+    cbn [claimed st_denom st_deposit] in M, Hbl.
+    destruct (claim_frame _ _ _ _ _ _ _ _ Ecl) as [Hvf Hfr].
+    split; [exact I2|]. split; [reflexivity|].
+    exists b1, s1, (cr_remaining c).
+    repeat (split; [first [assumption | reflexivity | exact (si_keys _ _ _ I1) | lia]|]).
+    left. split; [lia|]. exists c. auto.
+  - cbn [obind] in H. rewrite Hg in H.
+    dobind_as H b2' Hsend. injection H as <- <-.
+    destruct (cancel_finish _ _ _ _ _ _ _ I Hg Hsend) as (I2 & M & Hbl).
+    assert (Hz : st_deposit st = 0) by (pose proof (so_deposit _ _ Hok); lia).
+    split; [exact I2|]. split; [reflexivity|].
+    exists b, s, 0.
+    assert (Hc0 : snd (calculate_amount_to_claim now (st_dzt st) (st_lot st) (st_deposit st) (st_rate st)) = 0).
+    { rewrite Hz, catc_zero_deposit; [reflexivity|]. pose proof (so_rate _ _ Hok). lia. }
+    rewrite Hz in M.
+    repeat (split; [first [assumption | reflexivity | exact (si_keys _ _ _ I) | lia]|]).
+    right. auto.
+Qed.
+
+(* ================================================================== *)
+(* Message level: inversion of str_exec                                 *)
+(* ================================================================== *)
+
+Lemma aset_aset_same {V} (k : skey) (v v0 : V) (m : amap skey V) :
+  aset k v (aset k v0 m) = aset k v m.
+Proof.
+  induction m as [|[k' v'] r IH]; cbn [aset].
+  - rewrite keqb_refl. reflexivity.
+  - destruct (keqb k k') eqn:E; cbn [aset].
+    + rewrite keqb_refl. reflexivity.
+    + rewrite E, IH. reflexivity.
+Qed.
+
+Definition created (d : denom) (amt rate now : Z) : stream :=
+  {| st_denom := d; st_deposit := amt; st_rate := rate; st_lot := now;
+     st_dzt := now + (amt / rate) * NS; st_cancellable := true |}.
+
+Lemma create_inv now b s sn r d amt rate b' s' resp :
+  time_storable now = true -> 0 <= now ->
+  str_exec now b s (SCreate sn r d amt rate) = Ok (b', s', resp) ->
+  blocked r = false /\ sn <> r /\ aget (r, sn) (s_streams s) = None /\ 0 < amt /\ 1 <= rate /\
+  60 <= amt / rate < two63 /\ resp = RNone /\
+  bank_send b sn STREAM_MACC d amt = Ok b' /\
+  time_storable (now + (amt / rate) * NS) = true /\
+  s' = with_streams s (aset (r, sn) (created d amt rate now) (s_streams s)).
+Proof.
+  intros Hns Hn0 H. unfold str_exec in H.
+  destruct (blocked r) eqn:Hb; [discriminate|].
+  destruct (sn =? r) eqn:Hsr; [discriminate|].
+  unfold ahas in H. destruct (aget (r, sn) (s_streams s)) eqn:Hg; [discriminate|].
+  destruct (amt <=? 0) eqn:Ha; [discriminate|].
+  destruct (rate <=? 0) eqn:Hr; [discriminate|].
+  destruct (calculate_duration amt rate) as [dur|?|?] eqn:Hdur; cbn [obind] in H; try discriminate.
+  destruct (dur <? 60) eqn:H60; [discriminate|].
+  unfold set_stream at 1 in H. cbn [st_lot st_dzt] in H.
+  rewrite Hns, time_storable_0 in H. cbn [andb obind] in H.
+  unfold add_deposit in H. cbn [with_streams s_streams] in H.
+  rewrite aget_aset_eq in H. cbn [st_denom st_rate st_dzt st_deposit st_lot st_cancellable] in H.
+  rewrite Z.eqb_refl, Hdur in H. cbn [negb obind] in H.
+  destruct (0 <=? now) eqn:E0; [|lia].
+  change (0 <? 0) with false in H. cbn [obind with_streams s_streams] in H.
+  rewrite aget_aset_eq in H. cbn [obind st_denom st_rate st_dzt st_deposit st_lot st_cancellable] in H.
+  destruct (bank_send b sn STREAM_MACC d amt) as [b2|?|?] eqn:Hsend; cbn [obind] in H; try discriminate.
+  unfold set_stream in H. cbn [st_lot st_dzt] in H.
+  destruct (time_storable now && time_storable (add_seconds now dur)) eqn:Est; cbn [obind] in H; [|discriminate].
+  apply andb_true_iff in Est as [_ Hdz].
+  injection H as <- <- <-.
+  pose proof (duration_range _ _ _ Hdur) as Hext.
+  apply duration_exact in Hdur; [|lia|lia]. subst dur.
+  pose proof (add_seconds_wrap_not_storable _ _ Hns Hext Hdz) as Hadd.
+  rewrite Hadd in *.
+  repeat (split; [first [assumption | reflexivity | lia]|]).
+  cbn [with_streams s_streams s_valfee]. rewrite aset_aset_same.
+  unfold with_streams, created. cbn [s_valfee]. rewrite ?Z.add_0_l. reflexivity.
+Qed.
+
+Lemma claim_exec_inv now b s sn r b' s' resp :
+  str_exec now b s (SClaim sn r) = Ok (b', s', resp) ->
+  exists c, resp = RClaim c /\ claim_from_stream now b s r sn = Ok (b', s', c).
+Proof.
+  unfold str_exec. intros H. destruct (negb _); [discriminate|].
+  destruct (claim_from_stream now b s r sn) as [[[b1 s1] c]|?|?]; cbn [obind] in H; try discriminate.
+  injection H as <- <- <-. eauto.
+Qed.
+
+Lemma topup_exec_inv now b s sn r d amt b' s' resp :
+  str_exec now b s (STopUp sn r d amt) = Ok (b', s', resp) ->
+  0 < amt /\ exists st, aget (r, sn) (s_streams s) = Some st /\ d = st_denom st /\
+  add_deposit now b s r sn d amt = Ok (b', s') /\
+  resp = match aget (r, sn) (s_streams s') with
+         | Some st1 => RTopUp (st_deposit st1) (st_dzt st1) | None => RNone end.
+Proof.
+  unfold str_exec. intros H. destruct (amt <=? 0) eqn:Ha; [discriminate|].
+  destruct (aget (r, sn) (s_streams s)) as [st|] eqn:Hg; [|discriminate].
+  destruct (d =? st_denom st) eqn:Ed; cbn [negb] in H; [|discriminate].
+  destruct (add_deposit now b s r sn d amt) as [[b1 s1]|?|?]; cbn [obind] in H; try discriminate.
+  split; [lia|]. exists st. split; [reflexivity|]. split; [lia|].
+  destruct (aget (r, sn) (s_streams s1)) eqn:Hg1; injection H as <- <- <-; rewrite Hg1; auto.
+Qed.
+
+Lemma flow_exec_inv now b s sn r rate b' s' resp :
+  str_exec now b s (SUpdateFlow sn r rate) = Ok (b', s', resp) ->
+  1 <= rate /\ (exists st, aget (r, sn) (s_streams s) = Some st) /\
+  set_new_flow_rate now b s r sn rate = Ok (b', s') /\ resp = RNone.
+Proof.
+  unfold str_exec. intros H. destruct (rate <=? 0) eqn:Hr; [discriminate|].
+  unfold ahas in H. destruct (aget (r, sn) (s_streams s)) as [st|] eqn:Hg; cbn [negb] in H; [|discriminate].
+  destruct (set_new_flow_rate now b s r sn rate) as [[b1 s1]|?|?]; cbn [obind] in H; try discriminate.
+  injection H as <- <- <-. split; [lia|]. eauto.
+Qed.
+
+Lemma cancel_exec_inv now b s sn r b' s' resp :
+  str_exec now b s (SCancel sn r) = Ok (b', s', resp) ->
+  exists st, aget (r, sn) (s_streams s) = Some st /\ st_cancellable st = true /\
+  cancel_stream now b s r sn = Ok (b', s') /\ resp = RNone.
+Proof.
+  unfold str_exec. intros H.
+  destruct (aget (r, sn) (s_streams s)) as [st|] eqn:Hg; [|discriminate].
+  destruct (st_cancellable st) eqn:Ec; cbn [negb] in H; [|discriminate].
+  destruct (cancel_stream now b s r sn) as [[b1 s1]|?|?]; cbn [obind] in H; try discriminate.
+  injection H as <- <- <-. eauto.
+Qed.
+
+(* ================================================================== *)
+(* The invariant is preserved by every successful message (C11 item 8)  *)
+(* ================================================================== *)
+
+Lemma created_ok now d amt rate :
+  time_storable now = true -> 0 < amt -> 1 <= rate < two63 ->
+  time_storable (now + (amt / rate) * NS) = true ->
+  stream_ok now (created d amt rate now).
+Proof.
+  intros Hns Ha Hr Hdz.
+  constructor; cbn [created st_rate st_deposit st_lot st_dzt]; auto; try lia.
+  left. apply restart_sustain; lia.
+Qed.
+
+Theorem str_exec_preserves_inv now b s m b' s' resp :
+  str_inv now b s -> str_msg_wf m ->
+  str_exec now b s m = Ok (b', s', resp) -> str_inv now b' s'.
+Proof.
+  intros I [Hsig Hwf] H.
+  destruct (si_now _ _ _ I) as [Hns Hn0].
+  destruct m as [sn r d amt rate | sn r | sn r d amt | sn r rate | sn r]; cbn [str_signer] in Hsig.
+  - apply create_inv in H as (Hb & Nsr & Hg & Ha & Hr & Hq & -> & Hsend & Hdz & ->); auto.
+    apply bank_send_inv in Hsend as (_ & _ & M).
+    destruct (nonneg_not_macc _ Hsig) as (Nsn & _ & _).
+    apply inv_set with (b := b); auto.
+    + apply created_ok; auto; lia.
+    + intros d'. rewrite Hg. cbn [dep_opt]. unfold dep_in; cbn [created st_denom st_deposit].
+      rewrite (moved_recipient _ _ _ _ _ _ d' M) by exact Nsn.
+      destruct (d =? d') eqn:E1; destruct (d' =? d) eqn:E2; lia.
+  - apply claim_exec_inv in H as (c & -> & H). eapply claim_preserves_inv; eauto.
+  - apply topup_exec_inv in H as (Ha & st & Hg & -> & H & _).
+    destruct (nonneg_not_macc _ Hsig) as (Nsn & _ & _).
+    destruct (add_deposit_spec _ _ _ _ _ _ _ _ _ _ I Hg Ha H) as (I2 & _). auto.
+  - apply flow_exec_inv in H as (Hr & (st & Hg) & H & _).
+    destruct (set_new_flow_rate_spec _ _ _ _ _ _ _ _ _ I Hg Hr H) as (I2 & _). auto.
+  - apply cancel_exec_inv in H as (st & Hg & _ & H & _).
+    destruct (cancel_spec _ _ _ _ _ _ _ _ I Hg H) as (I2 & _). exact I2.
+Qed.
+
+Theorem sustain_step now b s m b' s' resp :
+  str_inv now b s -> str_msg_wf m -> str_validate_basic m = Ok tt ->
+  str_exec now b s m = Ok (b', s', resp) -> str_inv now b' s'.
+Proof. intros I W _ H. eapply str_exec_preserves_inv; eauto. Qed.
+
+Theorem inv_time_mono now now' b s :
+  str_inv now b s -> now <= now' -> time_storable now' = true -> str_inv now' b s.
+Proof.
+  intros [K S B V R [Hns Hn0]] Hle Hns'.
+  constructor; auto; [|split; [assumption|lia]].
+  intros k st Hg. destruct (S k st Hg) as [Hr Hd Hl Hls Hds Hsus].
+  constructor; auto; lia.
+Qed.
+
+Lemma str_step_preserves_inv now t b s m :
+  str_inv now b s -> now <= t -> time_storable t = true -> str_msg_wf m ->
+  str_inv t (fst (str_step (b, s) (t, m))) (snd (str_step (b, s) (t, m))).
+Proof.
+  intros I Hle Hst W. pose proof (inv_time_mono _ _ _ _ I Hle Hst) as It.
+  unfold str_step. cbn [fst snd].
+  destruct (str_validate_basic m); try exact It.
+  destruct (str_exec t b s m) as [[[b' s'] resp]|?|?] eqn:E; try exact It.
+  cbn [fst snd]. eapply str_exec_preserves_inv; eauto.
+Qed.
+
+Theorem sustain_reachable now0 b0 s0 h :
+  str_inv now0 b0 s0 -> times_sorted now0 h ->
+  str_inv (last_time now0 h) (fst (str_run (b0, s0) h)) (snd (str_run (b0, s0) h)).
+Proof.
+  revert now0 b0 s0. induction h as [|[t m] h IH]; intros now0 b0 s0 I TS.
+  - exact I.
+  - cbn [times_sorted] in TS. destruct TS as (Hle & Hst & W & TS).
+    unfold str_run, last_time. cbn [fold_left fst].
+    pose proof (str_step_preserves_inv _ _ _ _ _ I Hle Hst W) as I1.
+    destruct (str_step (b0, s0) (t, m)) as [b1 s1] eqn:E. cbn [fst snd] in I1.
+    exact (IH t b1 s1 I1 TS).
+Qed.
+
+(* ================================================================== *)
+(* C11: the deposit-zero time after each operation                      *)
+(* ================================================================== *)
+
+Theorem zero_time_create now b s sn r d amt rate b' s' resp :
+  str_inv now b s -> str_exec now b s (SCreate sn r d amt rate) = Ok (b', s', resp) ->
+  exists st, aget (r, sn) (s_streams s') = Some st /\ st_deposit st = amt /\ st_rate st = rate /\
+             st_lot st = now /\ st_dzt st = now + (amt / rate) * NS /\ st_denom st = d.
+Proof.
+  intros I H. destruct (si_now _ _ _ I) as [Hns Hn0].
+  apply create_inv in H as (_ & _ & _ & _ & _ & _ & _ & _ & _ & ->); auto.
+  exists (created d amt rate now). cbn [with_streams s_streams]. rewrite aget_aset_eq.
+  repeat split; reflexivity.
+Qed.
+
+Theorem zero_time_topup_running now b s sn r d amt st b' s' resp :
+  str_inv now b s -> aget (r, sn) (s_streams s) = Some st -> now < st_dzt st ->
+  str_exec now b s (STopUp sn r d amt) = Ok (b', s', resp) ->
+  exists st', aget (r, sn) (s_streams s') = Some st' /\
+    st_deposit st' = st_deposit st + amt /\ st_lot st' = st_lot st /\ st_rate st' = st_rate st /\
+    st_dzt st' = st_dzt st + (amt / st_rate st) * NS /\ st_denom st' = st_denom st /\
+    st_cancellable st' = st_cancellable st /\
+    resp = RTopUp (st_deposit st') (st_dzt st') /\
+    bank_send b sn STREAM_MACC (st_denom st) amt = Ok b'.
+Proof.
+  intros I Hg Hrun H.
+  apply topup_exec_inv in H as (Ha & st0 & Hg0 & -> & H & ->).
+  rewrite Hg in Hg0. injection Hg0 as <-.
+  destruct (add_deposit_spec _ _ _ _ _ _ _ _ _ _ I Hg Ha H)
+    as (_ & _ & _ & b1 & s1 & st1 & lot' & dzt' & Hsend & -> & Hden & Hrt & Hcan & _ & _ & Hcase).
+  destruct Hcase as [(_ & -> & -> & -> & -> & ->)|(Hexp & _)]; [|lia].
+  cbn [with_streams s_streams]. rewrite aget_aset_eq.
+  eexists. split; [reflexivity|]. cbn [topped st_deposit st_lot st_rate st_dzt st_denom st_cancellable].
+  repeat split; auto.
+Qed.
+
+Theorem zero_time_topup_expired now b s sn r d amt st b' s' resp :
+  str_inv now b s -> aget (r, sn) (s_streams s) = Some st -> st_dzt st <= now ->
+  str_exec now b s (STopUp sn r d amt) = Ok (b', s', resp) ->
+  exists st', aget (r, sn) (s_streams s') = Some st' /\
+    st_deposit st' = amt /\ st_lot st' = now /\ st_rate st' = st_rate st /\
+    st_dzt st' = now + (amt / st_rate st) * NS /\ st_denom st' = st_denom st /\
+    st_cancellable st' = st_cancellable st /\
+    resp = RTopUp (st_deposit st') (st_dzt st') /\
+    (* the old remainder is paid out in full first *)
+    ((0 < st_deposit st /\ exists b1 s1 c, claim_from_stream now b s r sn = Ok (b1, s1, c) /\
+         cr_total c = st_deposit st /\ cr_remaining c = 0 /\
+         bank_send b1 sn STREAM_MACC (st_denom st) amt = Ok b')
+     \/ (st_deposit st = 0 /\ bank_send b sn STREAM_MACC (st_denom st) amt = Ok b')).
+Proof.
+  intros I Hg Hexp H.
+  apply topup_exec_inv in H as (Ha & st0 & Hg0 & -> & H & ->).
+  rewrite Hg in Hg0. injection Hg0 as <-.
+  destruct (add_deposit_spec _ _ _ _ _ _ _ _ _ _ I Hg Ha H)
+    as (_ & _ & _ & b1 & s1 & st1 & lot' & dzt' & Hsend & -> & Hden & Hrt & Hcan & _ & _ & Hcase).
+  destruct Hcase as [(Hrun & _)|(_ & Hz & -> & -> & Hcl)]; [lia|].
+  cbn [with_streams s_streams]. rewrite aget_aset_eq.
+  eexists. split; [reflexivity|]. cbn [topped st_deposit st_lot st_rate st_dzt st_denom st_cancellable].
+  rewrite Hz. repeat (split; [first [assumption | reflexivity | lia]|]).
+  destruct Hcl as [(Hpos & c & Hc & Ht & Hr)|(Hz0 & -> & ->)].
+  - left. split; [exact Hpos|]. exists b1, s1, c. auto.
+  - right. auto.
+Qed.
+
+Theorem zero_time_update_flow now b s sn r rate st b' s' resp :
+  str_inv now b s -> aget (r, sn) (s_streams s) = Some st -> 0 < st_deposit st ->
+  str_exec now b s (SUpdateFlow sn r rate) = Ok (b', s', resp) ->
+  let D1 := snd (calculate_amount_to_claim now (st_dzt st) (st_lot st) (st_deposit st) (st_rate st)) in
+  exists st' s1 c,
+    claim_from_stream now b s r sn = Ok (b', s1, c) /\ cr_remaining c = D1 /\
+    aget (r, sn) (s_streams s') = Some st' /\
+    st_rate st' = rate /\ st_lot st' = now /\ st_dzt st' = now + (D1 / rate) * NS /\
+    st_deposit st' = D1 /\ st_denom st' = st_denom st /\ st_cancellable st' = st_cancellable st.
+Proof.
+  intros I Hg Hpos H. cbv zeta.
+  apply flow_exec_inv in H as (Hr & _ & H & _).
+  destruct (set_new_flow_rate_spec _ _ _ _ _ _ _ _ _ I Hg Hr H)
+    as (_ & s1 & st1 & dzt' & -> & _ & _ & Hcase).
+  destruct Hcase as [(_ & c & Hc & -> & ->)|(Hz & _)]; [|lia].
+  destruct (claim_spec _ _ _ _ _ _ _ _ _ I Hg Hc) as (_ & _ & _ & Hrem & _).
+  exists (rerated (claimed now st (cr_remaining c)) rate (now + cr_remaining c / rate * NS)), s1, c.
+  cbn [with_streams s_streams]. rewrite aget_aset_eq. rewrite <- Hrem.
+  repeat split; auto.
+Qed.
+
+(* ================================================================== *)
+(* C11: never early; cancel refund                                      *)
+(* ================================================================== *)
+
+Theorem never_early now b s sn r st b' s' c :
+  str_inv now b s -> aget (r, sn) (s_streams s) = Some st -> now < st_dzt st ->
+  str_exec now b s (SClaim sn r) = Ok (b', s', RClaim c) ->
+  cr_total c = st_rate st * whole_seconds (now - st_lot st) /\ cr_total c < st_deposit st /\
+  0 < cr_remaining c /\ cr_total c * NS <= st_rate st * (now - st_lot st).
+Proof.
+  intros I Hg Hrun H.
+  apply claim_exec_inv in H as (c' & [= <-] & H).
+  destruct (claim_spec _ _ _ _ _ _ _ _ _ I Hg H) as (_ & Hpos & Htot & Hrem & _ & Hrem' & _).
+  destruct (si_streams _ _ _ I _ _ Hg) as [Hr Hd Hl Hls Hds Hsus].
+  rewrite catc_before_zero in Htot, Hrem by lia. cbn [fst snd] in Htot, Hrem.
+  destruct Hsus as [Hsus|[Hz _]]; [|lia].
+  pose proof (claim_preserves_sustain (st_deposit st) (st_rate st) (st_lot st) (st_dzt st) now
+                ltac:(lia) Hl ltac:(lia) Hsus) as (H1 & H2 & H3 & H4 & H5).
+  rewrite <- Htot in *. lia.
+Qed.
+
+Theorem cancel_refund now b s sn r st b' s' resp :
+  str_inv now b s -> aget (r, sn) (s_streams s) = Some st ->
+  sn <> r -> sn <> STREAM_MACC -> sn <> FEE_COLLECTOR ->
+  str_exec now b s (SCancel sn r) = Ok (b', s', resp) ->
+  aget (r, sn) (s_streams s') = None /\
+  balance b' sn (st_denom st) - balance b sn (st_denom st)
+    = snd (calculate_amount_to_claim now (st_dzt st) (st_lot st) (st_deposit st) (st_rate st)) /\
+  (st_deposit st = 0 -> balance b' sn (st_denom st) = balance b sn (st_denom st)) /\
+  (forall d, d <> st_denom st -> balance b' sn d = balance b sn d).
+Proof.
+  intros I Hg N1 N2 N3 H.
+  apply cancel_exec_inv in H as (st0 & Hg0 & _ & H & _).
+  rewrite Hg in Hg0. injection Hg0 as <-.
+  destruct (cancel_spec _ _ _ _ _ _ _ _ I Hg H)
+    as (_ & _ & b1 & s1 & R & -> & _ & _ & ND & HR & HR0 & M & _ & Hcase).
+  split; [cbn [with_streams s_streams]; apply aget_adel_eq; exact ND|].
+  assert (Hb1 : forall d, balance b1 sn d = balance b sn d).
+  { intros d. destruct Hcase as [(_ & c & Hc & _)|(_ & -> & _)]; [|reflexivity].
+    eapply claim_balance_other; eauto. }
+  assert (Hz : st_deposit st = 0 -> R = 0).
+  { intros Hz. rewrite HR, Hz, catc_zero_deposit; [reflexivity|].
+    pose proof (so_rate _ _ (si_streams _ _ _ I _ _ Hg)). lia. }
+  rewrite <- HR.
+  split; [|split].
+  - rewrite (moved_recipient _ _ _ _ _ _ _ M) by congruence. rewrite Z.eqb_refl, Hb1. lia.
+  - intros Hz0. rewrite (moved_recipient _ _ _ _ _ _ _ M) by congruence.
+    rewrite Z.eqb_refl, Hb1, (Hz Hz0). lia.
+  - intros d Nd. rewrite (moved_other_denom _ _ _ _ _ _ sn d M) by exact Nd. apply Hb1.
+Qed.
+
+(* ================================================================== *)
+(* C10: payments of a claim                                             *)
+(* ================================================================== *)
+
+Theorem claim_payments now b s sn r st b' s' c :
+  str_inv now b s -> aget (r, sn) (s_streams s) = Some st ->
+  str_exec now b s (SClaim sn r) = Ok (b', s', RClaim c) ->
+  let d := st_denom st in
+  cr_fee c = (cr_total c * s_valfee s) / DEC_ONE /\ cr_receiver c = cr_total c - cr_fee c /\
+  balance b' r d = balance b r d + cr_receiver c /\
+  balance b' FEE_COLLECTOR d = balance b FEE_COLLECTOR d + cr_fee c /\
+  balance b' STREAM_MACC d = balance b STREAM_MACC d - cr_total c /\
+  deposit_of s' r sn = st_deposit st - cr_total c.
+Proof.
+  intros I Hg H. cbv zeta.
+  apply claim_exec_inv in H as (c' & [= <-] & H).
+  destruct (claim_spec _ _ _ _ _ _ _ _ _ I Hg H)
+    as (_ & _ & _ & _ & _ & Hrem & Hfee & Hrecv & _ & _ & -> & Hbr & Hbf & Hbm & _).
+  repeat (split; [assumption|]).
+  unfold deposit_of. cbn [with_streams s_streams]. rewrite aget_aset_eq. cbn [claimed st_deposit]. exact Hrem.
+Qed.
+
+(* ================================================================== *)
+(* C10: frame facts that need no invariant                              *)
+(* (no coins minted or burnt; only the addressed stream is touched)     *)
+(* ================================================================== *)
+
+Definition conserves (b b' : bank) : Prop :=
+  forall d, total_balance b' d = total_balance b d /\ supply_of b' d = supply_of b d.
+
+Lemma conserves_refl b : conserves b b.
+Proof. intros d; auto. Qed.
+
+Lemma conserves_trans b1 b2 b3 : conserves b1 b2 -> conserves b2 b3 -> conserves b1 b3.
+Proof. intros H1 H2 d. destruct (H1 d), (H2 d). split; congruence. Qed.
+
+Lemma bank_send_conserves' b from to d amt b' : bank_send b from to d amt = Ok b' -> conserves b b'.
+Proof. intros H d'. eapply bank_send_conserves; eauto. Qed.
+
+Lemma bank_send_m2a_conserves' b macc to d amt b' : bank_send_m2a b macc to d amt = Ok b' -> conserves b b'.
+Proof. intros H d'. eapply bank_send_m2a_conserves; eauto. Qed.
+
+Lemma claim_conserves' now b s r sn b' s' c :
+  claim_from_stream now b s r sn = Ok (b', s', c) -> conserves b b'.
+Proof. intros H d. eapply claim_conserves; eauto. Qed.
+
+(* "s' differs from s at most at key k" *)
+Definition only_at (k : skey) (s s' : str_state) : Prop :=
+  s_valfee s' = s_valfee s /\ forall k', k' <> k -> aget k' (s_streams s') = aget k' (s_streams s).
+
+Lemma only_at_refl k s : only_at k s s.
+Proof. split; auto. Qed.
+
+Lemma only_at_trans k s1 s2 s3 : only_at k s1 s2 -> only_at k s2 s3 -> only_at k s1 s3.
+Proof. intros [V1 F1] [V2 F2]. split; [congruence|]. intros k' N. rewrite F2, F1; auto. Qed.
+
+Lemma set_stream_only_at s r sn st s' : set_stream s r sn st = Ok s' -> only_at (r, sn) s s'.
+Proof.
+  unfold set_stream. destruct (_ && _); [|discriminate]. intros [= <-].
+  split; [reflexivity|]. intros k' N. cbn [with_streams s_streams]. apply aget_aset_neq. congruence.
+Qed.
+
+Lemma claim_only_at now b s r sn b' s' c :
+  claim_from_stream now b s r sn = Ok (b', s', c) -> only_at (r, sn) s s'.
+Proof. intros H. apply claim_frame in H. exact H. Qed.
+
+Lemma adel_only_at s r sn : only_at (r, sn) s (with_streams s (adel (r, sn) (s_streams s))).
+Proof.
+  split; [reflexivity|]. intros k' N. cbn [with_streams s_streams]. apply aget_adel_neq. congruence.
+Qed.
+
+Lemma add_deposit_frame now b s r sn d amt b2 s2 :
+  add_deposit now b s r sn d amt = Ok (b2, s2) -> conserves b b2 /\ only_at (r, sn) s s2.
+Proof.
+  unfold add_deposit. intros H.
+  destruct (aget (r, sn) (s_streams s)) as [st|]; [|discriminate].
+  destruct (negb (d =? st_denom st)); [discriminate|].
+  destruct (calculate_duration amt (st_rate st)) as [ext|?|?]; cbn [obind] in H; try discriminate.
+  destruct (st_dzt st <=? now).
+  - destruct (0 <? st_deposit st).
+    + destruct (claim_from_stream now b s r sn) as [[[b1 s1] c]|?|?] eqn:Ecl; cbn [obind] in H; try discriminate.
+      destruct (aget (r, sn) (s_streams s1)) as [st1|]; cbn [obind] in H; [|discriminate].
+      dobind_as H b2' Hsend. dobind_as H s2' Hset. injection H as <- <-.
+      split.
+      * eapply conserves_trans; [eapply claim_conserves'; eauto | eapply bank_send_conserves'; eauto].
+      * eapply only_at_trans; [eapply claim_only_at; eauto | eapply set_stream_only_at; eauto].
+    + cbn [obind] in H.
+      destruct (aget (r, sn) (s_streams s)) as [st1|]; cbn [obind] in H; [|discriminate].
+      dobind_as H b2' Hsend. dobind_as H s2' Hset. injection H as <- <-.
+      split; [eapply bank_send_conserves'; eauto | eapply set_stream_only_at; eauto].
+  - cbn [obind] in H.
+    dobind_as H b2' Hsend. dobind_as H s2' Hset. injection H as <- <-.
+    split; [eapply bank_send_conserves'; eauto | eapply set_stream_only_at; eauto].
+Qed.
+
+Lemma set_new_flow_rate_frame now b s r sn rate b2 s2 :
+  set_new_flow_rate now b s r sn rate = Ok (b2, s2) -> conserves b b2 /\ only_at (r, sn) s s2.
+Proof.
+  unfold set_new_flow_rate. intros H.
+  destruct (aget (r, sn) (s_streams s)) as [st|]; [|discriminate].
+  destruct (0 <? st_deposit st).
+  - destruct (claim_from_stream now b s r sn) as [[[b1 s1] c]|?|?] eqn:Ecl; cbn [obind] in H; try discriminate.
+    destruct (aget (r, sn) (s_streams s1)) as [st1|]; cbn [obind] in H; [|discriminate].
+    destruct (calculate_duration (st_deposit st1) rate) as [dur|?|?]; cbn [obind] in H; try discriminate.
+    dobind_as H s2' Hset. injection H as <- <-.
+    split; [eapply claim_conserves'; eauto|].
+    eapply only_at_trans; [eapply claim_only_at; eauto | eapply set_stream_only_at; eauto].
+  - cbn [obind] in H. dobind_as H s2' Hset. injection H as <- <-.
+    split; [apply conserves_refl | eapply set_stream_only_at; eauto].
+Qed.
+
+Lemma cancel_stream_frame now b s r sn b2 s2 :
+  cancel_stream now b s r sn = Ok (b2, s2) -> conserves b b2 /\ only_at (r, sn) s s2.
+Proof.
+  unfold cancel_stream. intros H.
+  destruct (aget (r, sn) (s_streams s)) as [st|]; [|discriminate].
+  destruct (negb (st_cancellable st)); [discriminate|].
+  destruct (0 <? st_deposit st).
+  - destruct (claim_from_stream now b s r sn) as [[[b1 s1] c]|?|?] eqn:Ecl; cbn [obind] in H; try discriminate.
+    destruct (aget (r, sn) (s_streams s1)) as [st1|]; [|discriminate].
+    dobind_as H b2' Hsend. injection H as <- <-.
+    split.
+    + eapply conserves_trans; [eapply claim_conserves'; eauto|].
+      destruct (0 <? st_deposit st1); [eapply bank_send_m2a_conserves'; eauto | injection Hsend as <-; apply conserves_refl].
+    + eapply only_at_trans; [eapply claim_only_at; eauto | apply adel_only_at].
+  - cbn [obind] in H.
+    destruct (aget (r, sn) (s_streams s)) as [st1|]; [|discriminate].
+    dobind_as H b2' Hsend. injection H as <- <-.
+    split; [|apply adel_only_at].
+    destruct (0 <? st_deposit st1); [eapply bank_send_m2a_conserves'; eauto | injection Hsend as <-; apply conserves_refl].
+Qed.
+
+(* the (receiver, sender) pair a message addresses *)
+Definition str_msg_key (m : str_msg) : skey :=
+  match m with
+  | SCreate sn r _ _ _ => (r, sn)
+  | SClaim sn r => (r, sn)
+  | STopUp sn r _ _ => (r, sn)
+  | SUpdateFlow sn r _ => (r, sn)
+  | SCancel sn r => (r, sn)
+  end.
+
+Lemma str_exec_frame now b s m b' s' resp :
+  str_exec now b s m = Ok (b', s', resp) -> conserves b b' /\ only_at (str_msg_key m) s s'.
+Proof.
+  intros H. destruct m as [sn r d amt rate | sn r | sn r d amt | sn r rate | sn r]; cbn [str_msg_key].
+  - unfold str_exec in H.
+    destruct (blocked r); [discriminate|]. destruct (sn =? r); [discriminate|].
+    destruct (ahas _ _); [discriminate|]. destruct (amt <=? 0); [discriminate|].
+    destruct (rate <=? 0); [discriminate|].
+    destruct (calculate_duration amt rate) as [dur|?|?]; cbn [obind] in H; try discriminate.
+    destruct (dur <? 60); [discriminate|].
+    dobind_as H s1 Hset.
+    destruct (add_deposit now b s1 r sn d amt) as [[b2 s2]|?|?] eqn:Ead; cbn [obind] in H; try discriminate.
+    injection H as <- <- <-.
+    apply add_deposit_frame in Ead as [C O]. split; [exact C|].
+    eapply only_at_trans; [eapply set_stream_only_at; eauto | exact O].
+  - apply claim_exec_inv in H as (c & _ & H).
+    split; [eapply claim_conserves'; eauto | eapply claim_only_at; eauto].
+  - apply topup_exec_inv in H as (_ & st & _ & _ & H & _). eapply add_deposit_frame; eauto.
+  - apply flow_exec_inv in H as (_ & _ & H & _). eapply set_new_flow_rate_frame; eauto.
+  - apply cancel_exec_inv in H as (st & _ & _ & H & _). eapply cancel_stream_frame; eauto.
+Qed.
+
+Theorem step_conserves_money now b s m b' s' resp d :
+  str_exec now b s m = Ok (b', s', resp) ->
+  total_balance b' d = total_balance b d /\ supply_of b' d = supply_of b d.
+Proof. intros H. apply str_exec_frame in H as [C _]. apply C. Qed.
+
+Theorem other_streams_untouched now b s m b' s' resp k :
+  str_exec now b s m = Ok (b', s', resp) -> k <> str_msg_key m ->
+  aget k (s_streams s') = aget k (s_streams s).
+Proof. intros H N. apply str_exec_frame in H as [_ [_ F]]. apply F; exact N. Qed.
+
+Theorem valfee_untouched now b s m b' s' resp :
+  str_exec now b s m = Ok (b', s', resp) -> s_valfee s' = s_valfee s.
+Proof. intros H. apply str_exec_frame in H as [_ [V _]]. exact V. Qed.
+
+Theorem failed_op_changes_nothing t b s m :
+  (forall x, str_exec t b s m <> Ok x) -> str_step (b, s) (t, m) = (b, s).
+Proof.
+  intros H. unfold str_step. cbn [fst snd].
+  destruct (str_validate_basic m); try reflexivity.
+  destruct (str_exec t b s m) as [[[b' s'] resp]|?|?] eqn:E; try reflexivity.
+  exfalso. eapply H; eauto.
+Qed.
+
+Theorem failed_op_changes_nothing' t b s m c :
+  str_exec t b s m = Err c \/ str_exec t b s m = Panic c \/ str_validate_basic m = Err c \/
+  str_validate_basic m = Panic c ->
+  str_step (b, s) (t, m) = (b, s).
+Proof.
+  unfold str_step. cbn [fst snd]. intros [H|[H|[H|H]]]; rewrite H; try reflexivity;
+    destruct (str_validate_basic m); reflexivity.
+Qed.
+
+(* ================================================================== *)
+(* C12: progress — funds are never stranded                             *)
+(* ================================================================== *)
+
+Theorem claim_succeeds now b s sn r st :
+  str_inv now b s -> aget (r, sn) (s_streams s) = Some st -> 0 < st_deposit st ->
+  exists b' s' c, str_exec now b s (SClaim sn r) = Ok (b', s', RClaim c).
+Proof.
+  intros I Hg Hd. unfold str_exec, ahas. rewrite Hg. cbn [negb].
+  destruct (claim_ok _ _ _ _ _ _ I Hg Hd) as (b' & s' & c & ->). cbn [obind]. eauto.
+Qed.
+
+Lemma refund_ok now b1 s1 r sn st1 :
+  str_inv now b1 s1 -> aget (r, sn) (s_streams s1) = Some st1 -> blocked sn = false ->
+  exists b2, (if 0 <? st_deposit st1
+              then bank_send_m2a b1 STREAM_MACC sn (st_denom st1) (st_deposit st1) else Ok b1) = Ok b2.
+Proof.
+  intros I Hg Hb. destruct (0 <? st_deposit st1) eqn:E; [|eauto].
+  apply bank_send_m2a_ok; [exact Hb|lia|]. eapply escrow_covers; eauto.
+Qed.
+
+Lemma cancel_ok now b s r sn st :
+  str_inv now b s -> aget (r, sn) (s_streams s) = Some st ->
+  st_cancellable st = true -> blocked sn = false ->
+  exists b' s', cancel_stream now b s r sn = Ok (b', s').
+Proof.
+  intros I Hg Hcan Hb. unfold cancel_stream. rewrite Hg, Hcan. cbn [negb].
+  destruct (0 <? st_deposit st) eqn:Ed.
+  - destruct (claim_ok _ _ _ _ _ _ I Hg ltac:(lia)) as (b1 & s1 & c & Ecl). rewrite Ecl. cbn [obind].
+    destruct (claim_spec _ _ _ _ _ _ _ _ _ I Hg Ecl) as (I1 & _ & _ & _ & _ & _ & _ & _ & _ & _ & Hs1 & _).
+    assert (Hg1 : aget (r, sn) (s_streams s1) = Some (claimed now st (cr_remaining c))).
+    { rewrite Hs1. cbn [with_streams s_streams]. apply aget_aset_eq. }
+    rewrite Hg1. destruct (refund_ok _ _ _ _ _ _ I1 Hg1 Hb) as (b2 & ->). cbn [obind]. eauto.
+  - cbn [obind]. rewrite Hg. destruct (refund_ok _ _ _ _ _ _ I Hg Hb) as (b2 & ->). cbn [obind]. eauto.
+Qed.
+
+Theorem cancel_succeeds now b s sn r st :
+  str_inv now b s -> aget (r, sn) (s_streams s) = Some st ->
+  st_cancellable st = true -> blocked sn = false ->
+  exists b' s', str_exec now b s (SCancel sn r) = Ok (b', s', RNone).
+Proof.
+  intros I Hg Hcan Hb. unfold str_exec. rewrite Hg, Hcan. cbn [negb].
+  destruct (cancel_ok _ _ _ _ _ _ I Hg Hcan Hb) as (b' & s' & ->). cbn [obind]. eauto.
+Qed.
+
+Lemma add_deposit_ok now b s r sn st amt :
+  str_inv now b s -> aget (r, sn) (s_streams s) = Some st -> 0 < amt ->
+  sn <> r -> sn <> STREAM_MACC -> sn <> FEE_COLLECTOR ->
+  amt <= balance b sn (st_denom st) -> amt / st_rate st < two63 ->
+  time_storable (add_seconds (if st_dzt st <=? now then now else st_dzt st) (amt / st_rate st)) = true ->
+  exists b' s', add_deposit now b s r sn (st_denom st) amt = Ok (b', s').
+Proof.
+  intros I Hg Ha N1 N2 N3 Hbal Hq Hst.
+  pose proof (si_streams _ _ _ I _ _ Hg) as Hok.
+  destruct (si_now _ _ _ I) as [Hns Hn0].
+  unfold add_deposit. rewrite Hg, Z.eqb_refl. cbn [negb].
+  rewrite (duration_ok amt (st_rate st)); [|apply Hok|lia|exact Hq]. cbn [obind].
+  destruct (st_dzt st <=? now) eqn:Edz.
+  - destruct (0 <? st_deposit st) eqn:Ed.
+    + destruct (claim_ok _ _ _ _ _ _ I Hg ltac:(lia)) as (b1 & s1 & c & Ecl). rewrite Ecl. cbn [obind].
+      destruct (claim_spec _ _ _ _ _ _ _ _ _ I Hg Ecl)
+        as (I1 & _ & _ & _ & _ & _ & _ & _ & _ & _ & Hs1 & _ & _ & _ & Hoth & _).
+      assert (Hg1 : aget (r, sn) (s_streams s1) = Some (claimed now st (cr_remaining c))).
+      { rewrite Hs1. cbn [with_streams s_streams]. apply aget_aset_eq. }
+      rewrite Hg1. cbn [obind claimed st_denom st_deposit st_rate st_dzt st_cancellable].
+      destruct (bank_send_ok b1 sn STREAM_MACC (st_denom st) amt) as (b2 & ->); [lia| |].
+      { rewrite Hoth by assumption. exact Hbal. }
+      cbn [obind]. unfold set_stream. cbn [st_lot st_dzt]. rewrite Hns, Hst. cbn [andb obind]. eauto.
+    + cbn [obind]. rewrite Hg. cbn [obind].
+      destruct (bank_send_ok b sn STREAM_MACC (st_denom st) amt) as (b2 & ->); [lia|exact Hbal|].
+      cbn [obind]. unfold set_stream. cbn [st_lot st_dzt]. rewrite Hns, Hst. cbn [andb obind]. eauto.
+  - cbn [obind].
+    destruct (bank_send_ok b sn STREAM_MACC (st_denom st) amt) as (b2 & ->); [lia|exact Hbal|].
+    cbn [obind]. unfold set_stream. cbn [st_lot st_dzt].
+    rewrite (so_lot_storable _ _ Hok), Hst. cbn [andb obind]. eauto.
+Qed.
+
+Theorem topup_succeeds now b s sn r st amt :
+  str_inv now b s -> aget (r, sn) (s_streams s) = Some st -> 0 < amt ->
+  sn <> r -> sn <> STREAM_MACC -> sn <> FEE_COLLECTOR ->
+  amt <= balance b sn (st_denom st) -> amt / st_rate st < two63 ->
+  time_storable (add_seconds (if st_dzt st <=? now then now else st_dzt st) (amt / st_rate st)) = true ->
+  exists b' s' resp, str_exec now b s (STopUp sn r (st_denom st) amt) = Ok (b', s', resp).
+Proof.
+  intros I Hg Ha N1 N2 N3 Hbal Hq Hst.
+  destruct (add_deposit_ok _ _ _ _ _ _ _ I Hg Ha N1 N2 N3 Hbal Hq Hst) as (b' & s' & E).
+  unfold str_exec. destruct (amt <=? 0) eqn:E0; [lia|].
+  rewrite Hg, Z.eqb_refl. cbn [negb]. rewrite E. cbn [obind].
+  destruct (aget (r, sn) (s_streams s')); eauto.
+Qed.
+
+(* the storability hypothesis of [topup_succeeds], in plain arithmetic:
+   the new deposit-zero time is not beyond year 9999 *)
+Lemma topup_storable_iff now st amt :
+  stream_ok now st -> time_storable now = true -> 0 <= amt -> amt / st_rate st < two63 ->
+  let base := if st_dzt st <=? now then now else st_dzt st in
+  time_storable (add_seconds base (amt / st_rate st)) = true <-> unix base + amt / st_rate st <= TS_MAX.
+Proof.
+  intros Hok Hns Ha Hq. cbv zeta.
+  apply add_seconds_storable_iff.
+  - destruct (st_dzt st <=? now); [exact Hns | apply Hok].
+  - split; [|exact Hq]. apply Z.div_pos; [lia|]. pose proof (so_rate _ _ Hok). lia.
+Qed.
+
+Theorem no_arith_panic_claim_cancel now b s sn r :
+  str_inv now b s ->
+  (forall c, str_exec now b s (SClaim sn r) <> Panic c) /\
+  (forall c, str_exec now b s (SCancel sn r) <> Panic c).
+Proof.
+  intros I. split; intros c0; unfold str_exec.
+  - unfold ahas. destruct (aget (r, sn) (s_streams s)) as [st|] eqn:Hg; cbn [negb]; [|discriminate].
+    destruct (0 <? st_deposit st) eqn:Ed.
+    + destruct (claim_ok _ _ _ _ _ _ I Hg ltac:(lia)) as (b' & s' & c & ->). cbn [obind]. discriminate.
+    + unfold claim_from_stream. rewrite Hg. destruct (st_deposit st <=? 0) eqn:E0; [|lia].
+      cbn [obind]. discriminate.
+  - destruct (aget (r, sn) (s_streams s)) as [st|] eqn:Hg; [|discriminate].
+    destruct (st_cancellable st) eqn:Hcan; cbn [negb]; [|discriminate].
+    assert (Hnp : forall c, cancel_stream now b s r sn <> Panic c).
+    { intros c1. unfold cancel_stream. rewrite Hg, Hcan. cbn [negb].
+      assert (Hfin : forall b1 s1 st1, str_inv now b1 s1 -> aget (r, sn) (s_streams s1) = Some st1 ->
+                (do b2 <- (if 0 <? st_deposit st1
+                           then bank_send_m2a b1 STREAM_MACC sn (st_denom st1) (st_deposit st1) else Ok b1);
+                 Ok (b2, with_streams s1 (adel (r, sn) (s_streams s1)))) <> Panic c1).
+      { intros b1 s1 st1 I1 Hg1. destruct (0 <? st_deposit st1) eqn:E1; [|cbn [obind]; discriminate].
+        destruct (bank_send_m2a b1 STREAM_MACC sn (st_denom st1) (st_deposit st1)) as [b2|e|p] eqn:E2;
+          cbn [obind]; try discriminate.
+        exfalso. eapply bank_send_m2a_no_panic; [|exact E2]. lia. }
+      destruct (0 <? st_deposit st) eqn:Ed.
+      - destruct (claim_ok _ _ _ _ _ _ I Hg ltac:(lia)) as (b1 & s1 & c & Ecl). rewrite Ecl. cbn [obind].
+        destruct (claim_spec _ _ _ _ _ _ _ _ _ I Hg Ecl) as (I1 & _ & _ & _ & _ & _ & _ & _ & _ & _ & Hs1 & _).
+        assert (Hg1 : aget (r, sn) (s_streams s1) = Some (claimed now st (cr_remaining c))).
+        { rewrite Hs1. cbn [with_streams s_streams]. apply aget_aset_eq. }
+        rewrite Hg1. eapply Hfin; eauto.
+      - cbn [obind]. rewrite Hg. eapply Hfin; eauto. }
+    destruct (cancel_stream now b s r sn) as [[b' s']|e|p] eqn:E; cbn [obind]; try discriminate.
+    exfalso. eapply Hnp; eauto.
+Qed.
+
+(* ================================================================== *)
+(* Initial state; "every stream is cancellable" as an invariant          *)
+(* ================================================================== *)
+
+Lemma str_inv_init now b vf :
+  (forall d, balance b STREAM_MACC d = 0) -> 0 <= vf <= DEC_ONE ->
+  time_storable now = true -> 0 <= now ->
+  str_inv now b {| s_valfee := vf; s_streams := [] |}.
+Proof.
+  intros Hb Hv Hns Hn0. constructor; cbn [s_streams s_valfee]; auto.
+  - constructor.
+  - intros k st H. discriminate H.
+  - intros d. rewrite Hb. reflexivity.
+  - intros r sn st H. discriminate H.
+Qed.
+
+Definition all_cancellable (s : str_state) : Prop :=
+  forall k st, aget k (s_streams s) = Some st -> st_cancellable st = true.
+
+Lemma all_cancellable_exec now b s m b' s' resp :
+  str_inv now b s -> all_cancellable s ->
+  str_exec now b s m = Ok (b', s', resp) -> all_cancellable s'.
+Proof.
+  intros I AC H k st' Hk.
+  destruct (skey_dec k (str_msg_key m)) as [->|Nk].
+  2:{ rewrite (other_streams_untouched _ _ _ _ _ _ _ _ H Nk) in Hk. eapply AC; eauto. }
+  destruct (si_now _ _ _ I) as [Hns Hn0].
+  destruct m as [sn r d amt rate | sn r | sn r d amt | sn r rate | sn r]; cbn [str_msg_key] in Hk.
+  - apply create_inv in H as (_ & _ & _ & _ & _ & _ & _ & _ & _ & ->); auto.
+    cbn [with_streams s_streams] in Hk. rewrite aget_aset_eq in Hk. injection Hk as <-. reflexivity.
+  - apply claim_exec_inv in H as (c & _ & H).
+    apply claim_inv in H as (st & total & remaining & recv & fee & b1 & Hg & _ & _ & _ & _ & _ & _ & _ & _ & -> & _).
+    cbn [with_streams s_streams] in Hk. rewrite aget_aset_eq in Hk. injection Hk as <-.
+    cbn [claimed st_cancellable]. eapply AC; eauto.
+  - apply topup_exec_inv in H as (Ha & st & Hg & -> & H & _).
+    destruct (add_deposit_spec _ _ _ _ _ _ _ _ _ _ I Hg Ha H)
+      as (_ & _ & _ & b1 & s1 & st1 & lot' & dzt' & _ & -> & _ & _ & Hcan & _).
+    cbn [with_streams s_streams] in Hk. rewrite aget_aset_eq in Hk. injection Hk as <-.
+    cbn [topped st_cancellable]. rewrite Hcan. eapply AC; eauto.
+  - apply flow_exec_inv in H as (Hr & (st & Hg) & H & _).
+    destruct (set_new_flow_rate_spec _ _ _ _ _ _ _ _ _ I Hg Hr H) as (_ & s1 & st1 & dzt' & -> & _ & _ & Hcase).
+    cbn [with_streams s_streams] in Hk. rewrite aget_aset_eq in Hk. injection Hk as <-.
+    cbn [rerated st_cancellable].
+    destruct Hcase as [(_ & c & _ & -> & _)|(_ & _ & _ & -> & _)]; cbn [claimed st_cancellable]; eapply AC; eauto.
+  - apply cancel_exec_inv in H as (st & Hg & _ & H & _).
+    destruct (cancel_spec _ _ _ _ _ _ _ _ I Hg H) as (_ & _ & b1 & s1 & R & -> & _ & _ & ND & _).
+    cbn [with_streams s_streams] in Hk. rewrite aget_adel_eq in Hk by exact ND. discriminate.
+Qed.
+
+Theorem reachable_inv_cancellable now0 b0 s0 h :
+  str_inv now0 b0 s0 -> all_cancellable s0 -> times_sorted now0 h ->
+  str_inv (last_time now0 h) (fst (str_run (b0, s0) h)) (snd (str_run (b0, s0) h)) /\
+  all_cancellable (snd (str_run (b0, s0) h)).
+Proof.
+  revert now0 b0 s0. induction h as [|[t m] h IH]; intros now0 b0 s0 I AC TS.
+  - split; assumption.
+  - cbn [times_sorted] in TS. destruct TS as (Hle & Hst & W & TS).
+    unfold str_run, last_time. cbn [fold_left fst].
+    pose proof (str_step_preserves_inv _ _ _ _ _ I Hle Hst W) as I1.
+    assert (AC1 : all_cancellable (snd (str_step (b0, s0) (t, m)))).
+    { unfold str_step. cbn [fst snd]. destruct (str_validate_basic m); try exact AC.
+      destruct (str_exec t b0 s0 m) as [[[b' s'] resp]|?|?] eqn:E; try exact AC.
+      cbn [snd]. eapply all_cancellable_exec; [|exact AC|exact E].
+      eapply inv_time_mono; eauto. }
+    destruct (str_step (b0, s0) (t, m)) as [b1 s1] eqn:E. cbn [fst snd] in I1, AC1.
+    exact (IH t b1 s1 I1 AC1 TS).
+Qed.
+
+(* cancel succeeds for every stream of every state reachable from an empty module state *)
+Theorem cancel_succeeds_reachable now0 b0 vf h sn r st :
+  (forall d, balance b0 STREAM_MACC d = 0) -> 0 <= vf <= DEC_ONE ->
+  time_storable now0 = true -> 0 <= now0 -> times_sorted now0 h ->
+  let bs := str_run (b0, {| s_valfee := vf; s_streams := [] |}) h in
+  aget (r, sn) (s_streams (snd bs)) = Some st -> blocked sn = false ->
+  exists b' s', str_exec (last_time now0 h) (fst bs) (snd bs) (SCancel sn r) = Ok (b', s', RNone).
+Proof.
+  intros Hb Hv Hns Hn0 TS bs Hg Hbl.
+  destruct (reachable_inv_cancellable now0 b0 {| s_valfee := vf; s_streams := [] |} h) as [I AC]; auto.
+  - apply str_inv_init; auto.
+  - intros k st0 H. discriminate H.
+  - eapply cancel_succeeds; eauto.
 Qed.
